@@ -14,21 +14,30 @@
    parses into deb822_lossless::Deb822 and converts paragraph by paragraph), so both see the same
    paragraphs; Paragraph::get is [pget] (first field of that name).
 
-   The code as shipped violates property C17 in four places (all reproduced on the real code
-   through the `copyright`/`glob` streams, see known_findings.jsonl and docs/cones/C17.md).
-   Each has a one-line proposed fix; a [variant] says which of the fixes are applied.
-   [fixed] is the code with proposed_fixes/C17-*.patch applied: the theorems of props/C17.v are
-   about it.  [shipped] is the code before those patches: the `_refuted` lemmas are about it. *)
+   The code violated property C17 in six places (all reproduced on the real code through the
+   `copyright`/`glob` streams, see known_findings.jsonl and docs/cones/C17.md).  Each has a small
+   fix; a [variant] says which of the fixes are applied.
+   [shipped]   = the code before any of them (commit 128b4be and earlier),
+   [committed] = the code with the four fixes that are in /repo (aa779ad 03f3b49 9fb8927 c9dae02),
+   [fixed]     = [committed] + proposed_fixes/C17-invalid-glob-escape.patch + C17-non-utf8-path.patch.
+   The theorems of props/C17.v are about [fixed] (and, with the hypothesis [doc_valid], about
+   [committed]); the `_refuted` lemmas are about [shipped], [committed] and the variants that lack
+   exactly one fix. *)
 From V.model Require Import Base Deb822Lex Deb822Parse Glob.
 
 Record variant : Type := mk_variant {
-  v_dotall : bool;       (* glob.rs: pattern starts with "(?s)"                (C17-glob-newline) *)
-  v_lossy_ws : bool;     (* lossy.rs: deserialize_file_list = split_whitespace  (C17-lossy-files-whitespace) *)
-  v_lp_name : bool;      (* lossless.rs: LicenseParagraph::name() reads a name-only paragraph (C17-license-paragraph-name) *)
-  v_skip_header : bool   (* lossless.rs: iter_files/iter_licenses skip the header paragraph (C17-header-paragraph) *)
+  v_dotall : bool;       (* glob.rs: pattern starts with "(?s)"                (aa779ad, C17-glob-newline) *)
+  v_lossy_ws : bool;     (* lossy.rs: deserialize_file_list = split_whitespace  (03f3b49, C17-lossy-files-whitespace) *)
+  v_lp_name : bool;      (* lossless.rs: LicenseParagraph::name() reads a name-only paragraph (9fb8927, C17-license-paragraph-name) *)
+  v_skip_header : bool;  (* lossless.rs: iter_files/iter_licenses skip the header paragraph (c9dae02, C17-header-paragraph) *)
+  v_lenient : bool;      (* glob.rs: matches() go through glob_matches(): an invalid pattern matches nothing
+                            instead of panicking                               (C17-invalid-glob-escape) *)
+  v_lossy_path : bool    (* glob.rs: glob_matches() reads the path with to_string_lossy() instead of
+                            to_str().unwrap()                                  (C17-non-utf8-path) *)
 }.
-Definition fixed : variant := mk_variant true true true true.
-Definition shipped : variant := mk_variant false false false false.
+Definition fixed : variant := mk_variant true true true true true true.
+Definition committed : variant := mk_variant true true true true false false.
+Definition shipped : variant := mk_variant false false false false false false.
 
 (* ---------------------------------------------------------------- constants *)
 Module Lit.
@@ -54,13 +63,17 @@ Definition is_whitespace (c : char) : bool :=
    (8192 <=? c) && (c <=? 8202) || (c =? 8232) || (c =? 8233) || (c =? 8239) || (c =? 8287) ||
    (c =? 12288))%N.
 
+(* list reversal in linear time (Coq's List.rev is quadratic, which the extracted runner feels on
+   a Files value of 10^5 characters); frev l = rev l (proofs/CopyrightP.v: frev_rev) *)
+Definition frev (l : str) : str := rev_append l [].
+
 (* str::split_whitespace: the maximal runs of non-whitespace characters. [acc] is the current run, reversed. *)
 Fixpoint split_ws (acc : str) (s : str) : list str :=
   match s with
-  | [] => match acc with [] => [] | _ :: _ => [rev acc] end
+  | [] => match acc with [] => [] | _ :: _ => [frev acc] end
   | c :: r =>
     if is_whitespace c then
-      match acc with [] => split_ws [] r | _ :: _ => rev acc :: split_ws [] r end
+      match acc with [] => split_ws [] r | _ :: _ => frev acc :: split_ws [] r end
     else split_ws (c :: acc) r
   end.
 Definition split_whitespace (s : str) : list str := split_ws [] s.
@@ -68,8 +81,8 @@ Definition split_whitespace (s : str) : list str := split_ws [] s.
 (* str::split('\n'): always at least one piece *)
 Fixpoint split_lf_go (acc : str) (s : str) : list str :=
   match s with
-  | [] => [rev acc]
-  | c :: r => if (c =? 10)%N then rev acc :: split_lf_go [] r else split_lf_go (c :: acc) r
+  | [] => [frev acc]
+  | c :: r => if (c =? 10)%N then frev acc :: split_lf_go [] r else split_lf_go (c :: acc) r
   end.
 Definition split_lf (s : str) : list str := split_lf_go [] s.
 
@@ -123,16 +136,21 @@ Definition lic_text (l : license) : option str :=
 
 (* ---------------------------------------------------------------- shared: any / filter-last *)
 (* files.iter().any(|f| glob_to_regex(f).is_match(path)): left to right, stops at the first match;
-   a pattern with an invalid escape panics when it is reached *)
-Fixpoint any_match (dotall : bool) (fs : list str) (path : str) : res bool :=
+   a pattern with an invalid escape panics when it is reached.
+   With [lenient] (C17-invalid-glob-escape): files.iter().any(|f| glob_matches(f, path)) — such a
+   pattern is skipped. *)
+Fixpoint any_match (dotall lenient : bool) (fs : list str) (path : str) : res bool :=
   match fs with
   | [] => Ok false
   | f :: r =>
-    match glob_match dotall f path with
-    | Ok true => Ok true
-    | Ok false => any_match dotall r path
-    | Err e => Err e | Panic n => Panic n | OutOfFuel => OutOfFuel
-    end
+    if lenient then
+      if glob_is_match dotall f path then Ok true else any_match dotall lenient r path
+    else
+      match glob_match dotall f path with
+      | Ok true => Ok true
+      | Ok false => any_match dotall lenient r path
+      | Err e => Err e | Panic n => Panic n | OutOfFuel => OutOfFuel
+      end
   end.
 
 (* iter.filter(pred).last(): the predicate runs on every element in order; the answer is the
@@ -166,7 +184,7 @@ Definition ll_files (p : para) : res (list str) :=
 (* FilesParagraph::matches.  filename.to_str().unwrap() cannot fail here: a path in the model is
    a sequence of Unicode scalar values (see docs/cones/C17.md for non-UTF-8 paths). *)
 Definition ll_matches (v : variant) (p : para) (path : str) : res bool :=
-  bind (ll_files p) (fun fs => any_match (v_dotall v) fs path).
+  bind (ll_files p) (fun fs => any_match (v_dotall v) (v_lenient v) fs path).
 (* FilesParagraph::license *)
 Definition ll_fp_license (p : para) : option license :=
   option_map license_of_str (pget p k_License).
@@ -283,7 +301,7 @@ Definition ly_of_doc (v : variant) (d : doc) : res lcopyright :=
 
 (* lossy FilesParagraph::matches *)
 Definition ly_matches (v : variant) (fp : lfiles) (path : str) : res bool :=
-  any_match (v_dotall v) (lf_files fp) path.
+  any_match (v_dotall v) (v_lenient v) (lf_files fp) path.
 (* lossy Copyright::find_files: the position is the index in self.files *)
 Definition ly_find_files (v : variant) (c : lcopyright) (path : str) : res (option (nat * lfiles)) :=
   last_match (fun fp => ly_matches v fp path) (c_files c) 0 None.
@@ -336,26 +354,37 @@ Definition ly_from_str (v : variant) (s : str) : res lcopyright :=
   end.
 
 (* ---------------------------------------------------------------- paths that are not valid UTF-8 *)
-(* Both matches() functions evaluate  glob_to_regex(f).is_match(filename.to_str().unwrap())  per
-   pattern.  Path::to_str() is None when the path is not valid UTF-8 (possible on Unix), so the
-   unwrap panics (Panic 13) as soon as there is a first pattern to try (after glob_to_regex of
-   that pattern, which may panic first).  Such a path is not a [str]; the functions above are
-   about paths that are.  The finding is recorded as class non-utf8-path (known_findings.jsonl);
-   the definitions below are what the `glob`/`copyright` streams compare on paths written
-   "!<hex bytes>" in a case file. *)
-Definition any_match_nonutf8 (fs : list str) : res bool :=
+(* Without C17-non-utf8-path both matches() functions evaluate, per pattern,
+     glob_to_regex(f).is_match(filename.to_str().unwrap())          (shipped, committed)
+     try_glob_to_regex(f).map_or(false, |r| r.is_match(path.to_str().unwrap()))   (lenient only)
+   Path::to_str() is None when the path is not valid UTF-8 (possible on Unix), so the unwrap
+   panics (Panic 13) as soon as there is a pattern to try whose translation succeeded.  Such a
+   path is not a [str]; the functions above are about paths that are.  With [v_lossy_path] the
+   path is read through Path::to_string_lossy(), i.e. the functions above are applied to the
+   lossy conversion of the path (every maximal invalid sequence reads as U+FFFD) and nothing
+   below is used.  The definitions below are what the `glob`/`copyright` streams compare, for a
+   variant without [v_lossy_path], on paths written "!<hex bytes>" in a case file. *)
+Fixpoint any_match_nonutf8 (lenient : bool) (fs : list str) : res bool :=
   match fs with
   | [] => Ok false
-  | f :: _ => bind (glob_to_regex f) (fun _ => Panic 13)
+  | f :: r =>
+    if lenient then
+      match try_glob_to_regex f with
+      | Ok _ => Panic 13
+      | _ => any_match_nonutf8 lenient r
+      end
+    else bind (glob_to_regex f) (fun _ => Panic 13)
   end.
-Definition ll_matches_nonutf8 (p : para) : res bool := bind (ll_files p) any_match_nonutf8.
-Definition ly_matches_nonutf8 (fp : lfiles) : res bool := any_match_nonutf8 (lf_files fp).
+Definition ll_matches_nonutf8 (v : variant) (p : para) : res bool :=
+  bind (ll_files p) (any_match_nonutf8 (v_lenient v)).
+Definition ly_matches_nonutf8 (v : variant) (fp : lfiles) : res bool :=
+  any_match_nonutf8 (v_lenient v) (lf_files fp).
 Definition ll_find_files_nonutf8 (v : variant) (d : doc) : res (option (nat * para)) :=
-  last_match ll_matches_nonutf8 (ll_iter_files v d) 0 None.
-Definition ly_find_files_nonutf8 (c : lcopyright) : res (option (nat * lfiles)) :=
-  last_match ly_matches_nonutf8 (c_files c) 0 None.
+  last_match (ll_matches_nonutf8 v) (ll_iter_files v d) 0 None.
+Definition ly_find_files_nonutf8 (v : variant) (c : lcopyright) : res (option (nat * lfiles)) :=
+  last_match (ly_matches_nonutf8 v) (c_files c) 0 None.
 (* find_license_for_file starts with find_files(filename)?: nothing can have matched *)
 Definition ll_find_license_for_file_nonutf8 (v : variant) (d : doc) : res (option license) :=
   bind (ll_find_files_nonutf8 v d) (fun _ => Ok None).
-Definition ly_find_license_for_file_nonutf8 (c : lcopyright) : res (option license) :=
-  bind (ly_find_files_nonutf8 c) (fun _ => Ok None).
+Definition ly_find_license_for_file_nonutf8 (v : variant) (c : lcopyright) : res (option license) :=
+  bind (ly_find_files_nonutf8 v c) (fun _ => Ok None).
